@@ -125,6 +125,7 @@ def report(ctx, lines, verdicts):
     return n
 
 
+ELSEWHERE = []  # race reports whose accesses are outside proxy/router and proxy/plan (not C07's subject; kept in the evidence)
 RACE_BLOCK = re.compile(r"WARNING: DATA RACE\n(.*?)\n==================", re.S)
 
 
@@ -157,6 +158,7 @@ def race_events(out, repo):
             tops.append((kind, fn, loc))
         shared = [t for t in tops if t[2] and ("/proxy/router/" in t[2] or "/proxy/plan/" in t[2])]
         if not shared:
+            ELSEWHERE.append(" / ".join("%s %s %s" % (t[0], t[1], (t[2] or "").replace(repo + "/", "")) for t in tops)[:400])
             continue
         wr = next((t for t in shared if "rite" in t[0]), shared[0])
         fn = re.sub(r"\(\)$", "", wr[1] or "?").replace("github.com/XiaoMi/Gaea/", "")
@@ -286,6 +288,7 @@ def race_run(ctx, cases):
     evs, total = race_events(out, vlib.REPO)
     ctx.cov["race_reports_total"] = total
     ctx.cov["race_reports_in_router_or_plan"] = len(evs)
+    ctx.cov["race_reports_elsewhere"] = sorted(set(ELSEWHERE))[:10]
     uniq = {}
     for e in evs:
         uniq.setdefault(e["func"], e)
